@@ -290,6 +290,11 @@ def handleLine (st : St) (line : String) : IO St := do
     return { st with bp := { st.bp with parser := { st.bp.parser with useUtf8 := toks.getD 1 "1" == "1" } } }
   | "XM" =>
     emit st "PARSE" "mode_switch" s!"{toks.getD 2 "mode switch"} made {toks.getD 1 "?"} listener call(s): a mode switch is not input (shiftIn / shiftOut / defineCharset must come from the stream only)"
+  | "DEC" =>
+    -- model-free: ByteParser's events differ from those of the crate's own character recogniser fed with the
+    -- reference decoding of the same bytes
+    let rest := (line.splitOn " | ")
+    emit st "DECODE" "feed" s!"the bytes of this feed were not decoded as a conforming streaming decoder decodes them: call #{toks.getD 1 "?"} is `{rest.getD 1 "?"}`, the crate's own recogniser makes `{rest.getD 2 "?"}` of the reference decoding"
   | "Z" | "X" => return st
   | other => emit st "TIE" "-" s!"unknown log line kind {other}"
 
